@@ -20,11 +20,13 @@ from .unicode_subsets import UnicodeSubset, lazy_subset, unicode_subset, unicode
 I_SHORTCUT_REPLACE = (
     ":A-Z_a-z\u00C0-\u00D6\u00D8-\u00F6\u00F8-\u02FF\u0370-\u037D\u037F-\u1FFF"
     "\u200C-\u200D\u2070-\u218F\u2C00-\u2FEF\u3001-\uD7FF\uF900-\uFDCF\uFDF0-\uFFFD"
+    "\U00010000-\U000EFFFF"
 )
 
 C_SHORTCUT_REPLACE = (
     "-.0-9:A-Z_a-z\u00B7\u00C0-\u00D6\u00D8-\u00F6\u00F8-\u037D\u037F-\u1FFF\u200C-"
     "\u200D\u203F\u2040\u2070-\u218F\u2C00-\u2FEF\u3001-\uD7FF\uF900-\uFDCF\uFDF0-\uFFFD"
+    "\U00010000-\U000EFFFF"
 )
 
 
